@@ -106,9 +106,14 @@ def run_tlc(wd, module, cfg, workers=16, extra=(), env=None, timeout=3600, simul
         r.exhausted = False
     r.wall = time.time() - t0
     r.out = out.decode("utf8", "replace")
-    m = re.findall(r"(\d+) states generated, (\d+) distinct states found", r.out)
+    # final summary "N states generated, M distinct states found" or, for a run stopped at its time budget, the last
+    # progress line "Progress(d) at ...: 1,234 states generated (.. s/min), 567 distinct states found (.. ds/min), ..."
+    m = re.findall(r"([\d,]+) states generated(?: \([^)]*\))?, ([\d,]+) distinct states found", r.out)
     if m:
-        r.states, r.distinct = int(m[-1][0]), int(m[-1][1])
+        r.states, r.distinct = int(m[-1][0].replace(",", "")), int(m[-1][1].replace(",", ""))
+    md = re.findall(r"Progress\((\d+)\)", r.out)
+    if md and not getattr(r, "exhausted", True):
+        r.depth = int(md[-1])
     m = re.search(r"The depth of the complete state graph search is (\d+)", r.out)
     if m:
         r.depth = int(m.group(1))
